@@ -2,7 +2,7 @@
 Towards C03: `processClause` — whatever strategy it picks, the table it leaves is the reference's join of
 the table with the clause (`processClause_spec`).
 -/
-import BW.Proofs.PlannerStep9
+import BW.Proofs.PlannerStep9b
 set_option linter.unusedSimpArgs false
 open BW.Model BW.Spec BW.Proofs.ClauseOrder BW.Proofs.Store BW.Proofs.Lookup
 
@@ -23,13 +23,13 @@ theorem specify_table {F : Facts} (hF : Facts.WF F = true) (hg : GraphsOK F gs) 
     let t : Tbl := { bindings := tbl.bindings, rows := out }
     let t' := if tbl.rows.isEmpty then t else t.addBindings c.bindings
     TblOK U t' ∧ t'.bindings ≠ [] ∧
-      SetEq (absRows t') (joinClause (gs.flatMap scanOf) (nl lo.lower) (nl lo.upper) (absRows tbl) c) := by
+      SetEq (absRows t') (joinClauseO (gs.flatMap scanOf) (nl lo.lower) (nl lo.upper) (absRows tbl) c) := by
   obtain ⟨hset, hok⟩ := specifyAll_spec hF hg U hwf hcin hfil tbl.rows out ht.rows h
   have hkeys : ∀ r' ∈ out, ∀ k, r'.has k = true → k ∈ tbl.bindings ∨ k ∈ c.bindings := by
     intro r' hr' k hk
     obtain ⟨x, hx, e⟩ := hset.1 r' hr'
     rw [rowEq_has e] at hk
-    rcases joinClause_keys _ _ _ _ c x hx k hk with ⟨r, hr, hrk⟩ | h2
+    rcases joinClauseO_keys _ _ _ _ c x hx k hk with ⟨r, hr, hrk⟩ | h2
     · exact Or.inl (ht.keys r hr k hrk)
     · exact Or.inr h2
   simp only
@@ -63,23 +63,54 @@ theorem specify_table {F : Facts} (hF : Facts.WF F = true) (hg : GraphsOK F gs) 
     · rw [absRows_of_ne hB, absRows_of_ne hne]
       exact hset
 
+theorem noAlias_objAliases {c : Clause} (h : c.hasAlias = false) : c.oLowerAlias = [] ∧ c.oUpperAlias = [] := by
+  unfold Clause.hasAlias at h
+  simp only [Bool.or_eq_false_iff, decide_eq_false_iff_not, ne_eq, Decidable.not_not] at h
+  exact ⟨h.1.2, h.2⟩
+
+theorem noBindings_objAliases {c : Clause} (h : c.bindings = []) : c.oLowerAlias = [] ∧ c.oUpperAlias = [] := by
+  constructor
+  · cases hl : c.oLowerAlias with
+    | nil => rfl
+    | cons a l =>
+      have := (objAliases_in_bindings c).1 (by rw [hl]; simp)
+      rw [h] at this; cases this
+  · cases hl : c.oUpperAlias with
+    | nil => rfl
+    | cons a l =>
+      have := (objAliases_in_bindings c).2 (by rw [hl]; simp)
+      rw [h] at this; cases this
+
+/-- The rows of a table that shares no name with the clause have none of the clause's names. -/
+theorem absRows_lack {U : Universe gs} {tbl : Tbl} (ht : TblOK U tbl) {c : Clause} (hd : ∀ k ∈ c.bindings, k ∉ tbl.bindings) :
+    ∀ r ∈ absRows tbl, ∀ k ∈ c.bindings, r.has k = false := by
+  intro r hr k hk
+  unfold absRows at hr
+  split at hr
+  · simp only [List.mem_singleton] at hr; subst hr; rfl
+  · cases hh : r.has k with
+    | false => rfl
+    | true => exact absurd (ht.keys r hr k hh) (hd k hk)
+
 /-- **One clause.** Whatever strategy `processClause` picks — existence test, probe, cross join, left outer
     join, first fetch, per-row specialisation — the table it leaves is the reference's join of the table with
     the clause; when it reports the pattern unresolvable the join is empty. -/
 theorem processClause_spec {F : Facts} (hF : Facts.WF F = true) (hg : GraphsOK F gs) (U : Universe gs)
     {tbl tbl' : Tbl} {unres : Bool} (ht : TblOK U tbl) {c : Clause} {lo : QOpts} (hwf : ClauseWF c) (hcw : ConstWF c)
     (hcin : ClauseIn U c) (hfil : lo.filter = none)
+    (hexO : (c.oLowerAlias ≠ [] → c.oLower = none) ∧ (c.oUpperAlias ≠ [] → c.oUpper = none))
     (hfirst : tbl.bindings = [] → c.optional = false ∧ c.extractsNothing = false)
     (halias : c.extractsNothing = true → c.bindings ≠ [] → (c.bindings.filter tbl.hasBinding).isEmpty = false)
     (h : processClause F gs tbl c lo 0 = .ok (tbl', unres)) :
     TblOK U tbl' ∧ (tbl'.bindings ≠ []) ∧
-    (unres = false → SetEq (absRows tbl') (joinClause (gs.flatMap scanOf) (nl lo.lower) (nl lo.upper) (absRows tbl) c)) ∧
-    (unres = true → joinClause (gs.flatMap scanOf) (nl lo.lower) (nl lo.upper) (absRows tbl) c = []) := by
+    (unres = false → SetEq (absRows tbl') (joinClauseO (gs.flatMap scanOf) (nl lo.lower) (nl lo.upper) (absRows tbl) c)) ∧
+    (unres = true → joinClauseO (gs.flatMap scanOf) (nl lo.lower) (nl lo.upper) (absRows tbl) c = []) := by
   unfold processClause at h
   by_cases h1 : (c.specificity == 3 && !c.hasAlias) = true
   · -- three constants, no alias: existence test
     simp only [h1, if_true] at h
     simp only [Bool.and_eq_true, beq_iff_eq, Bool.not_eq_true'] at h1
+    rw [joinClauseO_eq _ _ _ _ _ (noAlias_objAliases h1.2)]
     obtain ⟨hex, hb, hal1, hal2, hpid, hoid, i1, i2, i3⟩ := spec3_names hcw h1.1 h1.2
     have hB : tbl.bindings ≠ [] := by
       intro hb0; have := (hfirst hb0).2; rw [hex] at this; cases this
@@ -124,6 +155,7 @@ theorem processClause_spec {F : Facts} (hF : Facts.WF F = true) (hg : GraphsOK F
     · -- binds nothing: probe
       simp only [h2, if_true] at h
       have hb : c.bindings = [] := List.isEmpty_iff.mp h2
+      rw [joinClauseO_eq _ _ _ _ _ (noBindings_objAliases hb)]
       obtain ⟨hex, hal1, hal2⟩ := nobind_names hb
       have hB : tbl.bindings ≠ [] := by
         intro hb0; have := (hfirst hb0).2; rw [hex] at this; cases this
@@ -157,6 +189,7 @@ theorem processClause_spec {F : Facts} (hF : Facts.WF F = true) (hg : GraphsOK F
       · -- no shared binding: fetch once
         simp only [h3, if_true] at h
         have hd := existing_empty h3
+        rw [joinClauseO_lacking _ _ _ _ c hexO (absRows_lack ht hd)]
         have hex : c.extractsNothing = false := by
           cases hh : c.extractsNothing with
           | false => rfl
